@@ -157,15 +157,23 @@ def write_if_changed(path, text):
 # ------------------------------------------------------------------ Coq build
 
 class BuildLock:
+    """Exclusive while .vo files are (re)built; shared (ReadLock) while case files are evaluated against them, so that two
+    checks running at the same time never load a library another one is rewriting."""
+    mode = fcntl.LOCK_EX
+
     def __enter__(self):
         os.makedirs(WORKROOT, exist_ok=True)
         self.f = open(os.path.join(WORKROOT, "build.lock"), "w")
-        fcntl.flock(self.f, fcntl.LOCK_EX)
+        fcntl.flock(self.f, self.mode)
         return self
 
     def __exit__(self, *a):
         fcntl.flock(self.f, fcntl.LOCK_UN)
         self.f.close()
+
+
+class ReadLock(BuildLock):
+    mode = fcntl.LOCK_SH
 
 
 FORBIDDEN = re.compile(
@@ -298,7 +306,7 @@ def coq_eval_many(wd, files, jobs=None):
             f.write(text)
         paths.append((name, p))
     res = {}
-    with ThreadPoolExecutor(max_workers=jobs or NCPU) as ex:
+    with ReadLock(), ThreadPoolExecutor(max_workers=jobs or NCPU) as ex:
         futs = {name: ex.submit(coqc_file, p) for name, p in paths}
         for name, fu in futs.items():
             res[name] = fu.result()
@@ -323,7 +331,8 @@ def print_assumptions(modname, names, wd):
     p = os.path.join(wd, "PA_" + modname.replace(".", "_") + ".v")
     with open(p, "w") as f:
         f.write(text)
-    rc, out, err = coqc_file(p)
+    with ReadLock():
+        rc, out, err = coqc_file(p)
     res = {}
     if rc != 0:
         return {n: None for n in names}, err
@@ -425,7 +434,8 @@ def coq_eval_term(wd, tag, header, term):
     p = os.path.join(wd, f"eval_{tag}.v")
     with open(p, "w") as f:
         f.write(header + f"\nEval vm_compute in ({term}).\n")
-    rc, out, err = coqc_file(p)
+    with ReadLock():
+        rc, out, err = coqc_file(p)
     if rc != 0:
         return None, err
     return out, ""
